@@ -198,6 +198,14 @@ def gen_spec(seed):
                     "reply": reply,
                 }
             )
+            r3 = random.Random("c19-finish/%s/%s/%s" % (seed, ci, si))
+            # how the writing side says it is done: write_eof(), or close() — which for this adapter is the same half-close:
+            # the peer's bytes must still arrive on the reader the application holds
+            c["ops"][-1]["finish"] = r3.choice(["write_eof", "write_eof", "close"])
+            # a server handler that only reads: it drops its reference to the writer at once (StreamWriter.__del__ closes it)
+            c["ops"][-1]["drop_writer"] = r3.random() < 0.4
+            if not uni and c["ops"][-1]["drop_writer"] and r3.random() < 0.5:
+                c["ops"][-1]["reply"] = None
         for _ in range(rng.choice([0, 1, 1, 2, 3])):
             c["ops"].append({"op": "ping", "at": round(rng.choice([0.0, 0.05, 0.3, 1.0, 2.0]) + rng.random() * 0.05, 4), "n": rng.choice([1, 1, 2, 4])})
         for _ in range(rng.choice([0, 0, 1, 2])):
@@ -657,7 +665,7 @@ class Scenario:
             r.done_evt = asyncio.Event()
         return r
 
-    async def write_stream(self, proto, writer, rec, chunks, eof_delay):
+    async def write_stream(self, proto, writer, rec, chunks, eof_delay, finish="write_eof"):
         rec.writer_conn = proto
         for n, method, pause in chunks:
             data = prf_bytes(rec.key, n, rec.written)
@@ -675,7 +683,11 @@ class Scenario:
             await asyncio.sleep(eof_delay)
         rec.eof = True
         rec.eof_at = self.loop.time()
-        writer.write_eof()
+        if finish == "close":
+            writer.close()
+            self.count("streams_finished_with_close")
+        else:
+            writer.write_eof()
         self.count("streams_written")
 
     async def read_stream(self, proto, reader, rec, read_size):
@@ -758,6 +770,16 @@ class Scenario:
         uni = bool(sid & 2)
         read_size = op["read_size"] if op else -1
         if uni or op is None or op.get("reply") is None:
+            if not uni and op is not None and op.get("drop_writer"):
+                import gc
+
+                rec_out = self.srec(label, sid, "s2c")
+                rec_out.writer_conn = proto
+                rec_out.eof = True
+                rec_out.eof_at = self.loop.time()
+                writer = None
+                gc.collect()
+                self.count("server_handlers_that_dropped_the_writer")
             await self.read_stream(proto, reader, rec_in, read_size)
             return
         reply = op["reply"]
@@ -932,7 +954,7 @@ class Scenario:
         else:
             # first write directly after create_stream() (this is what makes the stream id taken)
             writer.write(b"")
-        wt = self.spawn(self.write_stream(proto, writer, rec, op["chunks"], op["eof_delay"]))
+        wt = self.spawn(self.write_stream(proto, writer, rec, op["chunks"], op["eof_delay"], op.get("finish", "write_eof")))
         if not op["uni"]:
             rec_back = self.srec(v.label, sid, "s2c")
             await self.read_stream(proto, reader, rec_back, op["read_size"])
